@@ -318,6 +318,13 @@ func (s *scnRun) overrun() bool {
 	if s.nCb > s.maxCb {
 		s.over = true
 	}
+	if s.nCb > 2*s.maxCb && s.cancel != nil {
+		s.cancel() // the failing prep did not stop the run: try the context
+	}
+	if s.nCb > 3*s.maxCb {
+		// nothing stops this execution: abandon it (recovered around flyt.Run, recorded as a panic event)
+		panic("harness: runaway execution abandoned after too many callbacks")
+	}
 	return s.over
 }
 
